@@ -56,6 +56,7 @@ def host_cases(ctx: Ctx, pairs):
             if len(c[2]) == 4:
                 c[2] = ["host_is_trusted", ht.APIS[1 + n % 3]]
     cases += g
+    cases += ht.entrypoint_cases(ctx.quick)    # every entry point x option combination x environ shape
     cases += ht.codepoint_cases(rng, _n(150, 5000, ctx.quick), 0x100 if ctx.quick else 0x500)
     return cases, n_model
 
@@ -63,7 +64,7 @@ def host_cases(ctx: Ctx, pairs):
 def judge_hosts(ctx: Ctx, cases, kind="host"):
     results = pmap(ht.host_case, cases, workers=ctx.workers, chunksize=64)
     lines = []
-    seen = {"bool_true": 0, "bool_false": 0, "value": 0, "SecurityError": 0}
+    seen = {"bool_true": 0, "bool_false": 0, "value": 0, "SecurityError": 0, "url_value": 0, "url_refused": 0}
     for t, (case, lns) in enumerate(zip(cases, results)):
         for i, ln in enumerate(lns):
             ln["t"], ln["i"] = t, i
@@ -75,6 +76,10 @@ def judge_hosts(ctx: Ctx, cases, kind="host"):
                 seen["value"] += 1
             elif r["exc"] == "SecurityError":
                 seen["SecurityError"] += 1
+                # (entry point + options, environ shape) that refused an untrusted host
+                ctx.nontrivial.add(("entry", ln["api"], ln["scheme"], ln["present"], _txt(ln["srvport"])))
+            if ln.get("vkind") == "url":
+                seen["url_value" if r["kind"] == "value" else "url_refused"] += 1
         ctx.count(len(lns))
         host, lst = case[0], case[1]
         if host and any(e.lstrip(".").lower() and e.lstrip(".").lower() in host.lower() for e in lst):
